@@ -15,7 +15,9 @@ Model driver for C16. Line protocol (fields separated by one space; "-" = empty 
               r in pool.Running(), k KillContainer answers true, o another operation on the uuid is in
               progress (uuidLock fails), c the queue's state became Locked right after the snapshot)
   rqp <quota>:<cancreate> <types> <ents>
-      the same pass against the real worker.Pool (quota ∈ {0,99}, modes i only, no k flag, types known)
+      the same pass against the real worker.Pool (quota ∈ {0,99}, modes i only, no k flag, types known);
+      the expected trace comes from `realPool` (Model/C16_Pool.lean), the model of Pool.AtQuota / Create /
+      KillContainer / StartContainer and of `throttle`
     -> the allowed set of call traces joined by "|" (one per outcome of the unstable priority sort)
        trace = ev,ev,...;L=<sorted uuids handed to lockContainer>
 -/
@@ -23,6 +25,7 @@ import ArvVerif.Base.Bytes
 import ArvVerif.Base.Loop
 import ArvVerif.Model.C16
 import ArvVerif.Model.C16_RunQueue
+import ArvVerif.Model.C16_Pool
 import ArvVerif.Model.C16_Queue
 open ArvVerif ArvVerif.C16
 
@@ -32,14 +35,20 @@ def splitOn1 (s : String) (sep : String) : List String :=
 def parseBool? (s : String) : Option Bool :=
   if s == "1" then some true else if s == "0" then some false else none
 
+/-- a decimal that fits in int64 (what `strconv.ParseInt(s, 10, 64)` accepts) -/
+def toI64? (s : String) : Option Int :=
+  match s.toInt? with
+  | some x => if -two63 ≤ x ∧ x < two63 then some x else none
+  | none => none
+
 def parseType? (s : String) : Option IType :=
   match s.splitOn ":" with
   | [n, v, r, sc, p, pre] => do
     let n ← n.toNat?
-    let v ← v.toInt?
-    let r ← r.toInt?
-    let sc ← sc.toInt?
-    let p ← p.toInt?
+    let v ← toI64? v
+    let r ← toI64? r
+    let sc ← toI64? sc
+    let p ← toI64? p
     let pre ← parseBool? pre
     pure { name := n, vcpus := v, ram := r, scratch := sc, price := p, preemptible := pre }
   | _ => none
@@ -47,7 +56,7 @@ def parseType? (s : String) : Option IType :=
 def parseMount? (s : String) : Option Mount :=
   match s.splitOn "=" with
   | [k, c] => do
-    let c ← c.toInt?
+    let c ← toI64? c
     pure { kind := k.toUTF8.toList, capacity := c }
   | _ => none
 
@@ -70,15 +79,15 @@ def priceGroups (ts : List IType) : List (List Nat) :=
 
 def stepChoose (reserve types ctr image mounts : String) : String :=
   let r := do
-    let reserve ← reserve.toInt?
+    let reserve ← toI64? reserve
     let ts ← (splitOn1 types ",").mapM parseType?
     let img ← parseHex? image
     let ms ← (splitOn1 mounts ";").mapM parseMount?
     match ctr.splitOn ":" with
     | [v, ram, keep, pre] => do
-      let v ← v.toInt?
-      let ram ← ram.toInt?
-      let keep ← keep.toInt?
+      let v ← toI64? v
+      let ram ← toI64? ram
+      let keep ← toI64? keep
       let pre ← parseBool? pre
       let c : Ctr := { vcpus := v, ram := ram, keepCacheRAM := keep, preemptible := pre, image := img, mounts := ms }
       pure (reserve, ts, c)
@@ -205,7 +214,16 @@ def stepRQ (real : Bool) (pool types ents : String) : String :=
         lingering := lingering }
     let unalloc : Nat → Int := fun t => match tsa[t]? with | some (i, b, _) => (i + b : Nat) | none => 0
     let keys := List.range ts.length
-    let traces := (allSorted ents).map (fun sorted => showTrace op cur (runQueue stubPool stub unalloc keys sorted))
+    -- "rqp": the model of worker.Pool (Model/C16_Pool.lean) at a frozen clock: quota 0 = a quota error was
+    -- received recently, cancreate 0 = throttleCreate holds a rate-limit error, 0 < cancreate < 99 =
+    -- MaxConcurrentInstanceCreateOps; uuids with flag r are in Running() and never reach KillContainer
+    let rp : RPool :=
+      { now := 1000, atQuotaUntil := if q == 0 then 3601000 else 0, thrErr := cc == 0, thrUntil := 3601000,
+        creating := 0, maxOps := if cc == 99 then 0 else cc
+        idle := fun t => match tsa[t]? with | some (i, _, _) => i | none => 0
+        runningProc := fun _ => false }
+    let traces := (allSorted ents).map (fun sorted => showTrace op cur
+      (if real then runQueue realPool rp unalloc keys sorted else runQueue stubPool stub unalloc keys sorted))
     "|".intercalate traces.eraseDups
 
 /-! ### container.Queue histories followed by one runQueue pass
